@@ -4,4 +4,4 @@ From PV Require Import Lib.Bytes Model.Settle.
 Definition z_for_common : Z := 0%Z.
 Definition nat_for_common : nat := 0%nat.
 Extraction "C16_model.ml" trim_file fix_header header_ok isort text_pass
-  check_cvsid plist_pass plist_line_fix gz_offered used_by z_for_common nat_for_common.
+  check_cvsid plist_pass plist_line_fix gz_offered used_by load_file save_file z_for_common nat_for_common.
